@@ -278,17 +278,20 @@ def history_part(run, bench, rng, nops):
     if described:
         import gc
         for v in ("g", "d"):
-            for _i in range(3):
+            ghosts = []
+            for _i in range(8):
                 try:
                     ghost = bench.root(v)()
                     for f in described:
                         setattr(ghost, f["name"], 9)
+                    ghosts.append(ghost)
                 except Exception:
                     pass
-                ghost = None
+            ghost = None
+            del ghosts[:]          # several freed slots of the right size: the packets of the history are likely to land in them
         gc.collect()
         run.count("dropped_packets_with_forced_automatic_fields")
-        history.append(["(three packets per variant built, their automatic fields forced to 9, dropped)"])
+        history.append(["(eight packets per variant built, their automatic fields forced to 9, dropped)"])
     list_fields = [f for f in fam["decls"][root]["fields"] if "rep" in f and f["t"] in ("int", "data")]
     # selectors with several packet alternatives: start with parses that select A, B, A (same class variant)
     forced = []
